@@ -63,7 +63,8 @@ def _run(spec):
             model = pipeline.make_model(datasets, spec.get("learner", "linear"), spec.get("train_fdr", 0.05),
                                         spec.get("max_iter", 2), seed, spec.get("delay", 0.0), spec.get("override", False), tag=tag)
         c = core.Call(mokapot.brew, datasets, model=model, test_fdr=spec.get("test_fdr", 0.05), folds=spec.get("folds", 3),
-                      max_workers=int(spec.get("workers", 1)), rng=seed, subset_max_train=spec.get("subset_max_train"))
+                      max_workers=int(spec.get("workers", 1)), rng=seed, subset_max_train=spec.get("subset_max_train"),
+                      ensemble=bool(spec.get("ensemble", False)))
         log = recorder.snapshot(tag)
         if not c.ok:
             return dict(status="error", stage="brew", error=c.info, sig=c.sig, explicit=c.explicit)
@@ -73,7 +74,7 @@ def _run(spec):
         out["scores_sha"] = _sha(b"".join(s.tobytes() for s in scores))
         out["descs"] = [bool(x) for x in descs]
         # fold assignment: which model scored which row (from the estimator log) in canonical form
-        fin = cv.final_outputs(log)
+        fin = cv.final_outputs(log) if not spec.get("ensemble") else None  # in ensemble mode every model scores every row
         if fin:
             uid_order = {}
             for m_i, m in enumerate(models):
